@@ -181,7 +181,8 @@ func (ex *Explorer) noteObligation(c *Ctx, msg, verdict string) {
 func (ex *Explorer) regionsFor(c *Ctx, key string) []region {
 	var out []region
 	for _, kf := range ex.Known {
-		if kf.Harness != ex.harness || kf.Key != key || strings.HasPrefix(kf.Status, "fixed") {
+		// Harness "*": the finding is identified by its call site (the key) whichever harness reaches it
+		if (kf.Harness != ex.harness && kf.Harness != "*") || kf.Key != key || strings.HasPrefix(kf.Status, "fixed") {
 			continue
 		}
 		txt := kf.Region
